@@ -419,5 +419,47 @@ func checkC13(c *mc.Ctx) {
 		}
 		c.Ev.Sample(map[string]any{"table": name, "what": cases[len(cases)/2].What, "section": mc.Hex(cases[len(cases)/2].Secs[0][:minInt(32, len(cases[len(cases)/2].Secs[0]))])})
 	}
-	c.Ev.Require("table:PAT", "table:PMT", "table:SDT", "table:NIT", "table:EIT", "table:TOT", "multi-section")
+	// multi-section units whose next section header straddles the packet boundary: section A is sized
+	// so that the first packet ends 0..4 bytes after / before the start of section B
+	var ns int64
+	for _, lenA := range []int{178, 179, 180, 181, 182, 183, 184, 185, 186} { // pointer_field + A = lenA+1 bytes
+		for _, kind := range []string{"PMT", "SDT", "EIT"} {
+			var tc tableCase
+			pad := func(n int) []*astits.Descriptor {
+				return fixLens([]*astits.Descriptor{{Tag: 0x83, UserDefined: fillBytes(n, 0x31)}})
+			}
+			switch kind {
+			case "PMT":
+				base := len(SecPMT(&astits.PMTData{ProgramNumber: 1, PCRPID: 0x100, ProgramDescriptors: pad(1)}, ref.SecHdr{CNI: true}))
+				a := &astits.PMTData{ProgramNumber: 1, PCRPID: 0x100, ProgramDescriptors: pad(1 + lenA - base)}
+				b := modelPMT(1, 0x101, 3)
+				tc = tableCase{What: "PMT straddle", PID: 0x1000, Secs: [][]byte{SecPMT(a, ref.SecHdr{CNI: true, LSN: 1}), SecPMT(b, ref.SecHdr{CNI: true, SN: 1, LSN: 1})}, Exp: []ExpData{{Kind: "PMT", Table: a}, {Kind: "PMT", Table: b}}}
+			case "SDT":
+				mk := func(n int) *astits.SDTData {
+					return &astits.SDTData{TransportStreamID: 1, OriginalNetworkID: 2, Services: []*astits.SDTDataService{{ServiceID: 3, RunningStatus: 4, Descriptors: pad(n)}}}
+				}
+				base := len(SecSDT(mk(1), ref.SecHdr{CNI: true}))
+				a, b := mk(1+lenA-base), modelSDT(3)
+				tc = tableCase{What: "SDT straddle", PID: 0x11, Secs: [][]byte{SecSDT(a, ref.SecHdr{CNI: true}), SecSDT(b, ref.SecHdr{CNI: true, SN: 1})}, Exp: []ExpData{{Kind: "SDT", Table: a}, {Kind: "SDT", Table: b}}}
+			case "EIT":
+				mk := func(n int) *astits.EITData {
+					return &astits.EITData{ServiceID: 1, Events: []*astits.EITDataEvent{{EventID: 1, StartTime: dvbTimes[2], Duration: time.Hour, RunningStatus: 1, Descriptors: pad(n)}}}
+				}
+				base := len(SecEIT(mk(1), ref.SecHdr{CNI: true}))
+				a, b := mk(1+lenA-base), modelEIT(2)
+				tc = tableCase{What: "EIT straddle", PID: 0x12, Secs: [][]byte{SecEIT(a, ref.SecHdr{CNI: true}), SecEIT(b, ref.SecHdr{CNI: true, SN: 1})}, Exp: []ExpData{{Kind: "EIT", Table: a}, {Kind: "EIT", Table: b}}}
+			}
+			if len(tc.Secs[0]) != lenA {
+				panic(fmt.Sprintf("straddle construction: section A is %d bytes, wanted %d", len(tc.Secs[0]), lenA))
+			}
+			if 1+lenA >= 184 {
+				continue // section B would start in a non-PUSI packet: outside the well-formed domain (C02)
+			}
+			c13Run(c, tc, 0)
+			ns++
+			c.Ev.Class("section-header-straddles-packets", 1)
+		}
+	}
+	c.Ev.AddScenario(mc.Scenario{Name: "straddling section headers", SpaceSize: ns, Executed: ns, Exhaustive: true, Bound: "2-section PMT/SDT/EIT units whose first packet ends 0..5 bytes into the second section"})
+	c.Ev.Require("section-header-straddles-packets", "table:PAT", "table:PMT", "table:SDT", "table:NIT", "table:EIT", "table:TOT", "multi-section")
 }
